@@ -149,4 +149,42 @@ theorem iter_conn (pm : ProcMap) (rs : List (Request × HOutcome)) (acc : List (
         simp only [hk']
         rw [iter_done pm _ n (Or.inl rfl)]
         simp
+theorem modRun_conn {α : Type} (f : α → α) (s : List α) (sched : List Nat) (i : Nat) :
+    (sched.foldl (fun s j => s.modify j f) s)[i]? = (s[i]?).map (iter f (sched.count i)) := by
+  induction sched generalizing s with
+  | nil => simp [iter]
+  | cons j t ih =>
+    simp only [List.foldl_cons]
+    rw [ih (s.modify j f)]
+    simp only [List.getElem?_modify, List.count_cons]
+    by_cases hji : j = i
+    · subst hji; cases s[j]? <;> simp [iter]
+    · have : (j == i) = false := by simpa using hji
+      cases s[i]? <;> simp [this, hji]
+
+theorem hdrs_get_set (st : Hdrs) (k v : Bytes) : (st.set k v).get? k = some v := by
+  induction st with
+  | nil => simp [Hdrs.set, Hdrs.get?]
+  | cons p t ih =>
+    obtain ⟨k', v'⟩ := p
+    by_cases h : k' = k <;> simp [Hdrs.set, Hdrs.get?, h, ih]
+
+theorem iter_ephStep_nil (c : EphConn) (n : Nat) (h : c.todo = []) : iter ephStep n c = c := by
+  induction n with
+  | zero => rfl
+  | succ n ih =>
+    have : ephStep c = c := by unfold ephStep; simp [h]
+    simp [iter, this, ih]
+
+theorem iter_eph (c : List EphScript) (acc : List EphObs) (st : Hdrs) (n : Nat) (hn : c.length ≤ n) :
+    (iter ephStep n ⟨c, acc, st⟩).seen = acc ++ (ephProtocol st c).1 := by
+  induction c generalizing acc st n with
+  | nil => rw [iter_ephStep_nil _ n rfl]; simp [ephProtocol]
+  | cons s t ih =>
+    cases n with
+    | zero => simp at hn
+    | succ n =>
+      simp only [iter, ephStep, ephProtocol]
+      rw [ih _ _ n (by simpa using hn)]
+      simp
 end FV.Proc
